@@ -648,7 +648,8 @@ theorem allPLists_keys_distinct (syms : List Bytes) (series : List Series) (ids 
       omega
 
 
-/-- Whole-file statement, second part: `newReader` accepts the written file; through the opened
+/-- Whole-file statement, second part (superseded by `block_roundtrip_sem` below, kept as its
+    stepping stone): `newReader` accepts the written file; through the opened
     reader every series, the all-postings list and the postings of every label pair in use read
     back (file below 4 GiB, symbol table without duplicates — `AddSymbol` enforces strictly
     increasing symbols —, non-empty label names). -/
@@ -678,23 +679,103 @@ theorem block_roundtrip_reader_partial (crc : Crc) (syms : List Bytes) (series :
     have := postings_written crc syms series h hfile hk k _ (by rw [List.getElem?_eq_getElem hk1, hk2])
     exact this
 
-/-- The complete whole-file statement, NOT proved: it adds to `block_roundtrip_sem_partial` that
-    `newReader` succeeds on the written file and that postings, label values and label names read
-    back.  Proved pieces: `postings_list_roundtrip`, `offset_table_roundtrip` (the codecs of both
-    sections at any position).  Missing: the placement lemma for the postings lists (the offsets in
-    the table point at the lists, as `placeSeries_spec` shows for series) and that `find?` in the
-    table hits the right entry (pairs are distinct because the symbol table is strictly sorted).
-    Those reads are tied to the real code by the `block` suite only (`rpost`, `rlv`, `rln`, `openq`). -/
-def block_roundtrip_sem_full : Prop :=
-  ∀ (crc : Crc) (syms : List Bytes) (series : List Series), BlockWF syms series →
-    syms.Pairwise (fun a b => bytesLt a b = true) →
-    (writeIndex crc syms series).bytes.length < 9223372036854775808 →
+theorem nodup_of_sorted (syms : List Bytes) (h : syms.Pairwise (fun a b => bytesLt a b = true)) : syms.Nodup := by
+  rw [List.nodup_iff_pairwise_ne]
+  apply List.Pairwise.imp _ h
+  intro a b hab hc
+  subst hc
+  rw [bytesLt_irrefl] at hab
+  cases hab
+
+theorem strOf_lt (syms : List Bytes) (h : syms.Pairwise (fun a b => bytesLt a b = true)) (i j : Nat)
+    (hij : i < j) (hj : j < syms.length) : bytesLt (strOf syms i) (strOf syms j) = true := by
+  rw [List.pairwise_iff_getElem] at h
+  have := h i j (by omega) hj hij
+  unfold strOf
+  rw [List.getElem?_eq_getElem (by omega : i < syms.length), List.getElem?_eq_getElem hj]
+  exact this
+
+/-- `Reader.LabelValues(name)` on the written file. -/
+theorem labelValues_written (crc : Crc) (syms : List Bytes) (series : List Series) (h : BlockWF syms series)
+    (hnd : syms.Nodup) (hne : ∀ n ∈ namesOf series, strOf syms n ≠ []) (n : Nat) (hn : n ∈ namesOf series) :
+    Reader.labelValues ⟨(writeIndex crc syms series).bytes, 2, (writeIndex crc syms series).toc, syms,
+      tableOf crc syms series⟩ (strOf syms n) = (valuesOf series n).map (strOf syms) := by
+  unfold Reader.labelValues
+  simp only
+  have h1 : ((tableOf crc syms series).filter fun e => decide (e.name = strOf syms n)).map (·.value) =
+      (((tableOf crc syms series).map fun e => (e.name, e.value)).filter
+        (fun k => decide (k.1 = strOf syms n))).map (·.2) := by
+    rw [List.filter_map, List.map_map]; rfl
+  rw [h1, tableOf_keys, allPLists_keys]
+  have h2 : decide ((([] : Bytes), ([] : Bytes)).1 = strOf syms n) = false := by
+    simp only [decide_eq_false_iff_not]; intro hc; exact hne n hn hc.symm
+  rw [List.filter_cons_of_neg (by rw [h2]; simp)]
+  exact filter_keys syms (valuesOf series) hnd (namesOf series) n (sortUniq_sorted _)
+    (fun m hm => namesOf_valid syms series h.series m hm) hn
+
+/-- `Reader.LabelNames()` on the written file. -/
+theorem labelNames_written (crc : Crc) (syms : List Bytes) (series : List Series) (h : BlockWF syms series)
+    (hsorted : syms.Pairwise (fun a b => bytesLt a b = true)) (hne : ∀ n ∈ namesOf series, strOf syms n ≠ []) :
+    Reader.labelNames ⟨(writeIndex crc syms series).bytes, 2, (writeIndex crc syms series).toc, syms,
+      tableOf crc syms series⟩ = (namesOf series).map (strOf syms) := by
+  unfold Reader.labelNames
+  simp only
+  have h1 : (tableOf crc syms series).map (·.name) =
+      ((tableOf crc syms series).map fun e => (e.name, e.value)).map (·.1) := by
+    rw [List.map_map]; rfl
+  rw [h1, tableOf_keys, allPLists_keys]
+  simp only [List.map_cons, List.filter_cons, List.isEmpty_nil, Bool.not_true, Bool.false_eq_true, if_false]
+  have h2 : (restKeys syms series).map (·.1) =
+      (namesOf series).flatMap fun n => (valuesOf series n).map fun _ => strOf syms n := by
+    unfold restKeys
+    simp only [List.map_flatMap, List.map_map]
+    rfl
+  rw [h2]
+  have h3 : ((namesOf series).flatMap fun n => (valuesOf series n).map fun _ => strOf syms n).filter
+      (fun n => !n.isEmpty) = (namesOf series).flatMap fun n => (valuesOf series n).map fun _ => strOf syms n := by
+    rw [List.filter_eq_self]
+    intro a ha
+    simp only [List.mem_flatMap, List.mem_map] at ha
+    obtain ⟨n, hn, _, _, rfl⟩ := ha
+    have := hne n hn
+    cases hs : strOf syms n with
+    | nil => exact absurd hs this
+    | cons _ _ => rfl
+  rw [h3]
+  apply foldr_insertBytes_blocks
+  · rw [List.pairwise_map]
+    apply List.Pairwise.imp_of_mem _ (sortUniq_sorted _)
+    intro a b _ hb hab
+    exact strOf_lt syms hsorted a b hab (namesOf_valid syms series h.series b hb)
+  · intro n hn; exact valuesOf_ne_nil series n hn
+
+/-- **Whole-file round trip.**  For every symbol table (strictly sorted, as `AddSymbol` enforces) and
+    every list of series `index.Writer` accepts (label names non-empty, file below 4 GiB):
+    `newReader` opens the written file, and symbols, every series (labels + chunk metas), the
+    all-postings list, the postings of every label pair, the values of every label name and the
+    label names read back exactly. -/
+theorem block_roundtrip_sem (crc : Crc) (syms : List Bytes) (series : List Series) (h : BlockWF syms series)
+    (hsorted : syms.Pairwise (fun a b => bytesLt a b = true))
+    (hne : ∀ n ∈ namesOf series, strOf syms n ≠ [])
+    (hfile : (writeIndex crc syms series).bytes.length < 4294967296) :
     ∃ r, openIndex crc (writeIndex crc syms series).bytes = .ok r ∧ r.syms = syms ∧
       (∀ (k : Nat) (s : Series) (id : Nat), series[k]? = some s → (writeIndex crc syms series).ids[k]? = some id →
         r.series crc id = .ok (strsOf (strOf syms) s)) ∧
-      (∀ n v, r.postings crc (strOf syms n) (strOf syms v) =
-        .ok (idsWith ((writeIndex crc syms series).ids.zip series) n v)) ∧
+      r.postings crc [] [] = .ok (writeIndex crc syms series).ids ∧
+      (∀ n v, n ∈ namesOf series → v ∈ valuesOf series n →
+        r.postings crc (strOf syms n) (strOf syms v) =
+          .ok (idsWith ((writeIndex crc syms series).ids.zip series) n v)) ∧
       (∀ n, n ∈ namesOf series → r.labelValues (strOf syms n) = (valuesOf series n).map (strOf syms)) ∧
-      r.labelNames = (namesOf series).map (strOf syms)
+      r.labelNames = (namesOf series).map (strOf syms) := by
+  have hnd := nodup_of_sorted syms hsorted
+  obtain ⟨r, hr, h1, h2, h3, h4⟩ := block_roundtrip_reader_partial crc syms series h hfile hnd hne
+  have hreq : r = ⟨(writeIndex crc syms series).bytes, 2, (writeIndex crc syms series).toc, syms,
+      tableOf crc syms series⟩ := by
+    have := openIndex_written crc syms series h hfile
+    rw [hr] at this
+    cases this; rfl
+  refine ⟨r, hr, h1, h2, h3, h4, ?_, ?_⟩
+  · intro n hn; rw [hreq]; exact labelValues_written crc syms series h hnd hne n hn
+  · rw [hreq]; exact labelNames_written crc syms series h hsorted hne
 
 end Prom.C24
